@@ -595,7 +595,7 @@ func (g *eg) jsonObject(d int) string {
 		case 0:
 			key = pick(r, []string{"k1", "k2", "k3", "k4", "a b", "", "for", "null", "é", "a.b"})
 		case 1:
-			key = pick(r, []string{"${b}", "p-${a}", "${loc}", "$${x}"})
+			key = pick(r, []string{"${b}", "p-${a}", "${loc}", "$${x}", "%{ if true }yes%{ else }no%{ endif }", "100%%{", "%{ for x in [1] }f%{ endfor }", "%%{ literal", "a%{ if false }b%{ endif }c"})
 		case 2:
 			key = pick(r, []string{"${a}", "${c}"})
 		default:
